@@ -655,6 +655,9 @@ class Interp(object):
   def func_from_native(self, f, cls=None):
     """FuncVal for a real function object defined in a repository file (source re-read)."""
     from .extract import funcdef_for
+    # run-time contract wrappers installed by the bounded tier (functools.wraps) are looked through:
+    # what is interpreted is always the repository's own function
+    while getattr(f, "__wrapped__", None) is not None: f = f.__wrapped__
     node, module = funcdef_for(f)
     INTERPRETED[f.__module__ + ":" + f.__qualname__] = node
     return FuncVal(node, module, None, f.__qualname__, cls)
